@@ -242,6 +242,17 @@ class SyncedList(SyncedCollection, MutableSequence):
                 [self._from_base(data=value, parent=self) for value in iterable_data]
             )
 
+    def pop(self, index=-1):  # noqa: D102
+        # The MutableSequence mixin performs a separate read and delete, each
+        # of which loads and saves on its own; do it in one locked step.
+        with self._load_and_save:
+            return self._data.pop(index)
+
+    def reverse(self):  # noqa: D102
+        # The MutableSequence mixin swaps elements one assignment at a time.
+        with self._load_and_save:
+            self._data.reverse()
+
     def remove(self, value):  # noqa: D102
         with self._load_and_save, self._suspend_sync:
             self._data.remove(self._from_base(data=value, parent=self))
